@@ -2,6 +2,7 @@
 import ast
 
 from sa.program import norm, own_nodes
+from sa.util import stmt_text
 from . import shared
 
 
@@ -21,6 +22,21 @@ def run(ctx):
         c.ob("R2", not bad, f, "uuid-not-used-for-order", "generated identifiers are used only as keys, never for ordering" if not bad else
              "a generated identifier (uuid) takes part in a sort/min/max: behaviour depends on random ids", f.node)
     c.floor("R2", "uuid generation sites", n, 3)
+    # actor ids end in a uuid4: no choice among actors may be made by comparing ids
+    from sa.util import assignments_to
+    for f in p.funcs_in("base_interpreter", "interpreter", "sync_interpreter"):
+        for x in own_nodes(f.node):
+            if isinstance(x, ast.Call) and isinstance(x.func, ast.Name) and x.func.id in ("min", "max", "sorted") and x.args:
+                src = norm(x.args[0])
+                names = [n_.id for n_ in ast.walk(x.args[0]) if isinstance(n_, ast.Name)]
+                from_actors = "_actors" in src or any("_actors" in norm(getattr(a, "value", a)) for nm in names for a in assignments_to(f, nm))
+                key = next((k.value for k in x.keywords if k.arg == "key"), None)
+                by_id = key is not None and ".id" in norm(key) or (key is None and "actor_id" in src)
+                if from_actors:
+                    c.ob("R2", not by_id, f, f"{x.func.id}-over-actors-by-id",
+                         "no choice among actors is made by comparing generated ids" if not by_id else
+                         f"'{stmt_text(x)}' picks among child actors by comparing ids; ids of actors spawned without an explicit id end in a "
+                         f"uuid4, so which actor is chosen differs from run to run", x)
     # R3: iteration over dict-of-sets in cancel_all is accepted (cancel order is not an observable) -- listed
     c.note("TaskManager.cancel_all flattens a dict of sets: accepted, cancellation order is not among the compared observables")
     # R4: region entry follows document (dict) order: the region list is built from .states.values() without re-sorting through a set
